@@ -97,5 +97,27 @@ def handle (op : String) (a : Json) : Option R :=
       let ms := coneMatrices ca cs aa asamp ns
       pure (Json.mkObj [("n", jNat (coneNumPoints ca cs)), ("phiSteps", jNat (conePhiSteps aa asamp ns)),
         ("mats", jList (ms.map (fun m => jFloats m.toList)))])
+  | "c07.eulerRoundTrip" => some do
+      -- to(from(R)) in the algebraic reading, `cos b = sqrt(R00² + R01²)`
+      let R ← m3Of (← getFloats a "m")
+      pure (jFloats (eulerZYXRoundTrip R (Float.sqrt (R.a00 * R.a00 + R.a01 * R.a01))).toList)
+  | "c07.eulerConv" => some do
+      match eulerToMatConvF (← getStr a "convention") (← getFloats a "angles") with
+      | some m => pure (jFloats m.toList)
+      | none => throw "ValueError"
+  | "c07.coneVec" => some do
+      let ca ← getExactF a "coneAngle"; let cs ← getExactF a "coneSampling"
+      let aa ← getExactF a "axisAngle"; let asamp ← getExactF a "axisSampling"; let ns ← getNat a "nSym"
+      if ns = 0 then throw "ZeroDivisionError"
+      match (← getFloats a "vector") with
+      | [w0, w1, w2] =>
+        let ms := coneMatricesVec ca cs aa asamp ns (w0, w1, w2)
+        pure (Json.mkObj [("n", jNat (coneNumPoints ca cs)), ("phiSteps", jNat (conePhiSteps aa asamp ns)),
+          ("mats", jList (ms.map (fun m => jFloats m.toList)))])
+      | _ => throw "BadArg:vector"
+  | "c07.align" => some do
+      match (← getFloats a "u"), (← getFloats a "v") with
+      | [u0, u1, u2], [v0, v1, v2] => pure (jFloats (alignRotF (u0, u1, u2) (v0, v1, v2)).toList)
+      | _, _ => throw "IndexError"
   | _ => none
 end Drv.C07
